@@ -159,7 +159,7 @@ Definition record_obs (b d1 d2 : url) : c07_obs :=
   let nb := normalize b in
   let nr := normalize d1 in
   mkObs (to_text b) (to_text n1) (to_text n1) (to_text b) (to_text n2)
-        (to_text nb) (to_text (normalize nb)) (to_text nr) (to_text (normalize nr)).
+        (to_text nb) (to_text (normalize nb)) (to_text nr) (to_text (normalize nr)) (to_text d1) (to_text d2).
 
 Theorem model_observation_satisfies_spec b d1 d2 f1 f2 :
   wf_base b -> wf_ref d1 \/ wf_base d1 -> wf_ref d2 \/ wf_base d2 ->
@@ -168,7 +168,7 @@ Proof.
   intros Wb W1 W2. pose proof (navigate_url_wf b d1 Wb W1) as Wn1.
   pose proof (navigate_url_wf _ d2 Wn1 W2) as Wn2.
   unfold c07_holds, record_obs. cbv zeta.
-  cbn [c_obs c_ref1 c_ref2 o_before o_nav1 o_nav1_again o_after o_nav2 o_nb1 o_nb2 o_nr1 o_nr2].
+  cbn [c_obs c_ref1 c_ref2 o_before o_nav1 o_nav1_again o_after o_nav2 o_nb1 o_nb2 o_nr1 o_nr2 o_ref1 o_ref2].
   rewrite (base_in_domain_wf b Wb), (ref_in_domain_wf d1 W1), (ref_in_domain_wf d2 W2).
   rewrite (navigate_url_refines_rfc b d1 Wb W1), (navigate_url_query b d1 Wb W1).
   rewrite (spec_clean_wf _ Wn1 (navigate_url_clean b d1 Wb W1)).
@@ -186,6 +186,6 @@ Theorem c07_model_on_texts b d1 d2 f1 f2 o :
   c07_model (mkCase (to_text b) false (to_text d1) f1 (to_text d2) f2 o) = Some (record_obs b d1 d2).
 Proof.
   intros Hb H1 H2. unfold c07_model. cbn [c_base c_unrooted c_ref1 c_ref2 c_as_url1 c_as_url2].
-  rewrite Hb, H1, (navigate_normal_form b _ d1 f1 H1 eq_refl).
-  rewrite (navigate_normal_form _ _ d2 f2 H2 eq_refl). reflexivity.
+  rewrite Hb, H1, H2, (navigate_normal_form b _ d1 f1 H1 eq_refl).
+  rewrite (navigate_normal_form _ _ d2 f2 H2 eq_refl). destruct f1, f2; reflexivity.
 Qed.
